@@ -524,6 +524,15 @@ def order_config(cfg):
         for k, sp in enumerate(R.spawns):
             eng.opts["e3_parse_outcomes"] = "fail" if fail_at == k + 1 else "ok"
             wt = reg.run_child(R, sp, [])
+            for t_ in wt:
+                for cs, cpos in t_.notes.get("parse_copy", ()):
+                    ok_ = cs is True or (z3.is_expr(cs) and z3.is_true(z3.simplify(cs)))
+                    if not ok_:
+                        recv = any(e.kind == "tryrecv" and e.out == "recv" for e in t_.events)
+                        out["viol"].setdefault("copy", {"cfg": cfg, "what": "the worker of chunk %d parses its chunk with string copying %s (%s): the delivered strings "
+                                                        "point into the pooled chunk buffer, which is handed out again" % (
+                                                            k, "off" if cs is False else "undetermined: " + str(cs)[:80],
+                                                            "value received from reuse" if recv else "fresh value"), "pos": cpos, "reuse_recv": recv})
             # reuse: delivered / not delivered are both explored; keep the variant matching reuse_cap (recv when cap>0)
             want = "recv" if reuse_cap else "default"
             wt = [t for t in wt if any(e.kind == "tryrecv" and e.out == want for e in t.events)] or wt
@@ -752,7 +761,48 @@ def replay_order(ctx, w, benign=False):
     return bad, text
 
 
-def run_order(ctx, prog, Cmax):
+COPY_TEST = r'''package simdjson
+
+import (
+	"fmt"
+	"strings"
+	"testing"
+)
+
+// every value ParseNDStream delivers, with and without recycling values through the reuse channel, holds its strings in its own
+// buffer (copy mode: every string entry of the tape carries the buffer flag)
+func TestVerifE3Copy(t *testing.T) {
+	same := true
+	reuse := make(chan *ParsedJson, 64)
+	for round := 0; round < 4 && same; round++ {
+		res := make(chan Stream, 64)
+		ParseNDStream(strings.NewReader("[\"ab\",{\"k\":\"v\"}]\n[\"cd\"]\n[\"ef\"]\n"), res, reuse)
+		for r := range res {
+			if r.Error != nil || r.Value == nil {
+				continue
+			}
+			pj := r.Value
+			for i := 0; i < len(pj.Tape); i++ {
+				switch byte(pj.Tape[i] >> 56) {
+				case '"':
+					if pj.Tape[i]&STRINGBUFBIT == 0 {
+						same = false
+						fmt.Printf("VERIF-E3: detail round %d: a delivered string points into the chunk buffer (tape entry %d)\n", round, i)
+					}
+					i++
+				case 'l', 'u', 'd':
+					i++
+				}
+			}
+			reuse <- pj
+		}
+	}
+	fmt.Printf("VERIF-E3: same %v\n", same)
+}
+'''
+
+
+def run_order(ctx, prog, Cmax, copy_only=False):
     cfgs = []
     for c in range(0, Cmax + 1):
         gs = sorted({min(2 * k - 1, 16) for k in range(1, min(8, c + 2) + 1)})     # GOMAXPROCS values giving conc = 1..min(8,c+2)
@@ -765,6 +815,8 @@ def run_order(ctx, prog, Cmax):
         if c:
             cfgs.append((c, 16, False, 0, 2000))
             cfgs.append((c, 16, False, 0, 8))
+    if copy_only:
+        cfgs = [x for x in cfgs if x[0] in (1, 2) and x[1] == 16 and not x[2] and not x[3]]
     cfgs.sort(key=lambda x: -x[0])
     _G["prog"] = prog
     with mp.get_context("fork").Pool(min(16, len(cfgs))) as pool:
@@ -803,8 +855,23 @@ def run_order(ctx, prog, Cmax):
                       "another worker's value is explored as a scenario and refuted/confirmed by the timestamp constraints",
              "term": "unsat of the stuck-configuration query on every scenario (consumer of res live)",
              "race": "unsat of: two accesses to the same non-global object from different goroutines, one a write (incl. sync.Pool.Put = ownership given up), overlap in time"}
-    for key, lname in (("order", "Q2.order"), ("term", "Q2.term"), ("race", "Q2.race")):
+    descs["copy"] = "every worker closure of ParseNDStream (fresh value or one received from reuse) reaches parseMessage with copyStrings == true"
+    for key, lname in ((("copy", "Q2.copy"),) if copy_only else (("order", "Q2.order"), ("term", "Q2.term"), ("race", "Q2.race"), ("copy", "Q2.copy"))):
         ws = [r["viol"][key] for r in results if key in r["viol"]]
+        if key == "copy":
+            verdict = "error" if (errs or unk) else "unsat"
+            if ws:
+                rc, out_, kv = RP.run_replay({"zz_verif_e3copy_test.go": COPY_TEST}, "TestVerifE3Copy", timeout=120)
+                ctx.replays += 1
+                if kv.get("same") == "false":
+                    verdict = "sat"
+                    ctx.report_violation("Q2.copy: %s (at %s); %d configurations affected; native run with a reuse chain: %s" % (ws[0]["what"], ws[0]["pos"], len(ws), kv.get("detail")),
+                                         {"lemma": "Q2.copy", "witness": ws[0], "native": kv})
+                else:
+                    verdict = "error"
+                    ctx.report_inconclusive("Q2.copy: %s - not reproduced natively (%s)" % (ws[0]["what"], kv or out_[-300:]))
+            ctx.add_lemma(lname, verdict, bound=bound, desc=descs[key])
+            continue
         verdict = "error" if (errs or unk) else "unsat"
         if ws:
             ws.sort(key=lambda w: (w["cfg"][2], w["cfg"][3], w["cfg"][4], w["cfg"][0], w["cfg"][1]))
@@ -832,6 +899,8 @@ def run_order(ctx, prog, Cmax):
                 verdict = "error"
                 ctx.report_inconclusive("%s: solver found: %s (cfg %s; %d configurations) — not reproduced natively (%s)" % (lname, w["what"], w["cfg"], len(ws), text))
         ctx.add_lemma(lname, verdict, bound=bound, queries=q, solver_s=round(ss, 2), desc=descs[key])
+    if copy_only:
+        return
     ctx.sample({"lemma": "Q2.order", "scenarios": nsc, "events": nev, "queue capacities": concs})
     # translator validation: one complete schedule of a plain scenario, predicted by the model, forced on the real code
     vals = [r["validation"] for r in results if "validation" in r]
@@ -891,7 +960,10 @@ def run(ctx):
         t0 = time.time()
         run_data(ctx, prog, Lmax)
         ctx.log("data lemmas: %.1fs" % (time.time() - t0))
-    if not only or any(o in only for o in ("Q2.order", "Q2.term", "Q2.race")):
+    if getattr(ctx, "q2_copy_only", False):
+        run_order(ctx, prog, 2, copy_only=True)
+        return
+    if not only or any(o in only for o in ("Q2.order", "Q2.term", "Q2.race", "Q2.copy")):
         t0 = time.time()
         run_order(ctx, prog, Cmax)
         ctx.log("ordering lemmas: %.1fs" % (time.time() - t0))
